@@ -267,6 +267,28 @@ class QueryMachine(Machine):
                 if np.any(err[free_idx] <= 0) or np.any(err[free_idx] > 1.0 * (np.abs(p[free_idx]) + 1.0)):
                     res.discard = "degenerate-uncertainties"
                     return
+                if sim.spec["minimizer"] != "iminuit":
+                    # "unchanged up to the minimizer tolerance" presupposes that the reported optimum is one: on a sibling, the fit result must be
+                    # a fixed point of the minimizer itself (otherwise every re-minimising query legitimately improves it; whether do_fit converges
+                    # is C06's question, not claimed)
+                    sib = FitSim(ops[0][1], pre_sources=ops[0][2])
+                    try:
+                        for op2 in ops[1:step]:
+                            if op2[0] not in ("q", "do_fit"):
+                                try:
+                                    sib.apply(op2)
+                                except NotApplicable:
+                                    pass
+                        sib.fit.do_fit()
+                        ps = np.array(sib.fit.parameter_values, dtype=float)
+                        sib.fit._fitter._minimizer.minimize()
+                        ps2 = np.array(sib.fit._fitter._minimizer.parameter_values, dtype=float)
+                    except Exception:
+                        res.discard = "sibling-fit-failed"
+                        return
+                    if ps.shape != ps2.shape or np.any(np.abs(ps2 - ps)[free_idx] > 0.02 * err[free_idx]):
+                        res.discard = "fit-result-not-a-fixed-point-of-the-minimizer"
+                        return
                 base = {"p": p, "err": err, "cost": cost, "fixed": {nm: p[sim.ref.par_names.index(nm)] for nm in sim.ref.fixed}}
                 fitted = True
                 res.bump("fit_" + sim.spec["type"] + "_" + sim.spec["minimizer"])
@@ -295,6 +317,9 @@ class QueryMachine(Machine):
             if q[0] in ("profile", "cp_profile") and sim.spec["minimizer"] != "iminuit" and ((sim.ref.n_par - len(sim.ref.fixed)) == 1 or sim.limited) and case.get("tier") != "thorough":
                 res.bump("query_skipped_scipy_profile_single_parameter")
                 continue  # constrained SLSQP with nothing left to vary runs to its iteration limit (tens of seconds): thorough tier only
+            if q[0] in ("contour", "cp_contours") and sim.spec["minimizer"] != "iminuit" and sim.spec["cost"] in fitlib.POISSON_LIKE:
+                res.bump("query_skipped_scipy_contour_poisson")
+                continue  # scipy contour heuristic on Poisson likelihoods: > 5 min per contour observed (model excursions to non-positive means); report-only
             if q[0] in ("contour", "cp_contours") and sim.spec["minimizer"] != "iminuit" and (case.get("tier") != "thorough" or sim.limited):
                 res.bump("query_skipped_scipy_contour")
                 continue  # the scipy contour heuristic can take minutes (with limits: > 4 min observed); thorough tier, unlimited parameters only
@@ -325,6 +350,10 @@ class QueryMachine(Machine):
                         far = 1e4 * (abs(base["err"][pi]) + 1e-12)
                         if any(abs(v - base["p"][pi]) > far for v in list(s[:2]) + list(prev_sum[:2])):
                             tags.append("diverged-profile-bounds")
+                        elif s.shape == prev_sum.shape and np.allclose(s[:3], prev_sum[:3], rtol=1e-6, atol=1e-9) and (
+                                max(abs(s[3]), abs(prev_sum[3])) > 100.0 * (min(abs(s[3]), abs(prev_sum[3])) + 1.0)):
+                            # same scan range and minimum, one scan point off by orders of magnitude: a pinned re-minimisation that did not converge
+                            tags.append("nonconverged-scan-point")
                     raise Violation(PROP, "same-answer", q[0], "query %r asked twice in a row gave %s then %s" % (q, _fmt(prev_sum), _fmt(s)), step=step,
                                     expected=prev_sum, actual=s, extra={"tags": tags})
             prev_q, prev_sum = q, (s if raised is None else None)
